@@ -455,6 +455,43 @@ def handler_table(ctx, fname):
     raise AnalysisError('anchor vanished: handler dispatch (dict literal or chain of exchange-type tests) in IkeSa.%s' % fname)
 
 
+def exception_passes(ctx, rule, caller, callee, exc_name, what, key):
+    """every call of `callee` in `caller` lets an exception of class `exc_name` out unchanged: no enclosing handler of the caller catches
+    it, unless that handler re-raises the very exception"""
+    fi = ctx.func(caller)
+    S = ctx.sval(fi)
+    hier = ctx.escape('engine', kills=engine_kills(ctx)).hier
+    calls = S.calls_to(qual=callee)
+    ctx.floor('%s %s call in %s' % (rule, callee.split('.')[-1], fi.name), len(calls), 1, rule=rule)
+    tries = {}
+    for n in ast.walk(fi.node):
+        if isinstance(n, ast.Try):
+            for b in n.body:
+                for x in ast.walk(b):
+                    tries.setdefault(id(x), []).append(n)
+    for c in calls:
+        swallowed = []
+        for tr in tries.get(id(c.node), []):
+            for h in tr.handlers:
+                names = ['BaseException'] if h.type is None else [hier.name_of(e, fi.module, fi.cls) for e in (
+                    h.type.elts if isinstance(h.type, ast.Tuple) else [h.type])]
+                if any(nm and hier.is_sub(exc_name, nm) for nm in names):
+                    reraises = any(isinstance(x, ast.Raise) and (x.exc is None or (isinstance(x.exc, ast.Name) and x.exc.id == h.name))
+                                   for x in ast.walk(h))
+                    if not reraises:
+                        swallowed.append(src(h.type) if h.type is not None else 'bare except')
+        ctx.check(not swallowed, rule, what, key=(rule, key), site=ctx.site(fi, c.node), detail={'handlers': swallowed})
+
+
+def parse_errors_propagate(ctx, rule):
+    """IkeSa.process_message lets what Message.parse raises escape to its caller: the controller undoes the registration of a fresh
+    responder IKE_SA (and half-open bookkeeping) in its `except` clause, so a parse error swallowed one level below leaves the entry in
+    the table for good (state INITIAL has no timer)"""
+    exception_passes(ctx, rule, 'ikesa.IkeSa.process_message', 'message.Message.parse', 'InvalidSyntax',
+                     'a datagram that Message.parse refuses leaves process_message as that exception (no handler on the way swallows it)',
+                     'parse-error-swallowed')
+
+
 def lookup_side(pc, key):
     """which side of a table lookup by `key` a path condition is on: 'miss' when the KeyError of the lookup was caught or the membership
     test `key in <table>` failed, 'hit' when nothing else constrains the path (at most the membership test held), else None.
